@@ -15,7 +15,8 @@ N = {'quick': 300, 'thorough': 5000}
 RULE = ('documents from harness/docgen.py: component forests of 1-7 components (depth <= 4), 1-7 signals (constants by '
         'initial_value or equation, algebraic variables, states with ODEs, derivative references on other right-hand '
         'sides) owned by random components and read elsewhere through relay chains of up to 5 hops whose ends carry '
-        'different units of one dimension; random local names, element order, component_1/2 order, cmeta ids on '
+        'different units of one dimension (families include units defined with multiplier AND exponent on one <unit> '
+        'element, and chains of them); random local names, element order, component_1/2 order, cmeta ids on '
         'source/relay/target ends; plus the exhaustive family: every forest on 2 and 3 labelled components x every '
         'ordered (owner, reader) pair (quick: one unit assignment each; thorough: every ordered pair of the 6-unit '
         'volt family on the two ends); 15% of the random documents get one schema-valid perturbation (interface flip, '
@@ -47,12 +48,13 @@ TOL = Fraction(1, 10 ** 9)
 def gen(rng, n, tier):
     topo = D.topo_cases()
     fam = D.FAMILIES[(1, 0)][:6]
+    famx = fam + ['V_chain', 'V_chain']       # + a unit defined with multiplier and exponent on one element (chain)
     if tier == 'thorough':
         for parent, o, t in topo:
             hops = len(D.route(parent, o, t)) - 1
             for ua in fam:
                 for ub in fam:
-                    mid = [rng.choice(fam) for _ in range(hops - 1)]
+                    mid = [rng.choice(famx) for _ in range(hops - 1)]
                     kind = rng.choice(['alg', 'alg', 'state', 'const-init'])
                     yield make_case(D.topo_doc(rng, parent, o, t, [ua] + mid + [ub], swap=rng.random() < 0.5, kind=kind,
                                                annotate=rng.choice([None, None, 0, 1, 2])), 'topo')
@@ -61,7 +63,7 @@ def gen(rng, n, tier):
         n_topo = min(len(topo), n // 3)
         for parent, o, t in (topo if n_topo == len(topo) else rng.sample(topo, n_topo)):
             hops = len(D.route(parent, o, t)) - 1
-            us = [rng.choice(fam) for _ in range(hops + 1)]
+            us = [rng.choice(famx) for _ in range(hops + 1)]
             kind = rng.choice(['alg', 'alg', 'state', 'const-init'])
             yield make_case(D.topo_doc(rng, parent, o, t, us, swap=rng.random() < 0.5, kind=kind,
                                        annotate=rng.choice([None, None, 0, 1, 2])), 'topo')
